@@ -8,7 +8,7 @@ import (
 	"fmt"
 	"math/big"
 	"net"
-	"runtime"
+	"os"
 	"strings"
 	"sync"
 	"testing"
@@ -29,10 +29,25 @@ import (
 // One history = one synctest bubble with a fresh ClientConn (passthrough
 // target, ONE address, default pick_first), a scripted dialer and the
 // ConnectParams under test. After every event the bubble runs to quiescence.
-// The oracle only looks at the dialer's own log of (virtual time, result) and
-// the events the harness issued.
+// The oracle only looks at the dialer's own log of (virtual start time, virtual
+// end time, result) and the events the harness issued.
+//
+// A connection attempt has a START (the dialer is called) and an END (it
+// failed or succeeded). The scripted failure outcomes are: instant failure,
+// "slowfail(d)" (the dialer blocks for d of virtual time - or until the
+// channel's connect deadline cancels its context, whichever is first - and then
+// returns an error) and "stallclose(1s)" (the dial succeeds at once, the raw
+// server end never sends a preface and closes the connection after 1s). The
+// statement's wait is measured from the END of the failed attempt to the START
+// of the next one.
 
-var c20Events = []string{"connect", "adv500ms", "adv1s", "adv10s", "reset", "okNext"}
+// The first c20BaseEvents events are the base alphabet; the remaining ones
+// select how the FOLLOWING failing dials fail (sticky until changed; okNext
+// overrides it for one dial).
+var c20Events = []string{"connect", "adv500ms", "adv1s", "adv10s", "reset", "okNext",
+	"slowfail500ms", "slowfail1s", "slowfail10s", "stallclose1s", "instantfail"}
+
+const c20BaseEvents = 6
 
 const (
 	c20EvConnect = iota
@@ -41,7 +56,27 @@ const (
 	c20EvAdv10s
 	c20EvReset
 	c20EvOkNext
+	c20EvSlow500
+	c20EvSlow1s
+	c20EvSlow10s
+	c20EvStall1s
+	c20EvInstant
 )
+
+// c20FailMode: how a scripted failing dial fails.
+type c20FailMode struct {
+	Name  string
+	Slow  time.Duration // > 0: the failure takes this much virtual time
+	Stall bool          // the dial itself succeeds; the server end closes after Slow without a preface
+}
+
+var c20FailModes = map[int]c20FailMode{
+	c20EvInstant: {"instant", 0, false},
+	c20EvSlow500: {"slowfail500ms", 500 * time.Millisecond, false},
+	c20EvSlow1s:  {"slowfail1s", time.Second, false},
+	c20EvSlow10s: {"slowfail10s", 10 * time.Second, false},
+	c20EvStall1s: {"stallclose1s", time.Second, true},
+}
 
 type c20ChanCfg struct {
 	Name string
@@ -64,25 +99,46 @@ func c20MinMax(cfg grpcbackoff.Config, n int) (lo, hi time.Duration) {
 }
 
 type c20Dial struct {
-	At time.Duration // virtual time since the start of the history
-	OK bool
+	At   time.Duration // virtual time of the START of the attempt (since the start of the history)
+	End  time.Duration // virtual time at which the attempt failed / succeeded (valid if Done)
+	Done bool
+	OK   bool
+	Mode string // scripted outcome
+	Cut  bool   // a slow dial whose context was cancelled (connect deadline / Close) before its scripted duration
+}
+
+func (d c20Dial) String() string {
+	switch {
+	case !d.Done:
+		return fmt.Sprintf("{%v.. %s in-flight}", d.At, d.Mode)
+	case d.OK:
+		return fmt.Sprintf("{%v ok}", d.At)
+	case d.Cut:
+		return fmt.Sprintf("{%v..%v %s cut-by-ctx}", d.At, d.End, d.Mode)
+	}
+	return fmt.Sprintf("{%v..%v %s}", d.At, d.End, d.Mode)
 }
 
 type c20Fail struct{ Class, Desc string }
 
 type c20HistResult struct {
-	Fails   []c20Fail
-	FailAt  int // number of events applied when the first failure was seen
-	Dials   []c20Dial
-	MaxIdx  int // largest retry index whose wait was checked
+	Fails    []c20Fail
+	FailAt   int // number of events applied when the first failure was seen
+	Dials    []c20Dial
+	MaxIdx   int     // largest retry index whose wait was checked
 	IdxCount [12]int // gaps checked per retry index (capped at 11)
-	Checked int // gaps checked against the lower bound
-	Resets  int // short gaps excused by ResetConnectBackoff
-	Succ    int // successful connections
-	PostOK  int // gaps checked after a success (index must have restarted at 0)
+	Checked  int     // gaps checked against the lower bound
+	Resets   int     // short gaps excused by ResetConnectBackoff
+	Succ     int     // successful connections
+	PostOK   int     // gaps checked after a success (index must have restarted at 0)
+	SlowGaps int     // gaps checked after a failure that took virtual time (END > START)
+	CutGaps  int     // ... of which the attempt was ended by the channel's connect deadline
+	StallGaps int    // ... of which the failure was "accepted, no preface, closed"
+	MidReset int     // gaps checked after an attempt during which ResetConnectBackoff was called
+	InFlight int     // events issued while a connection attempt was in flight
 }
 
-// c20RunHistory applies pre ++ hist to a fresh channel.
+// c20RunHistory applies hist to a fresh channel.
 func c20RunHistory(t *testing.T, cc20 c20ChanCfg, hist []int) (res c20HistResult) {
 	defer func() {
 		if p := recover(); p != nil {
@@ -94,25 +150,79 @@ func c20RunHistory(t *testing.T, cc20 c20ChanCfg, hist []int) (res c20HistResult
 		var mu sync.Mutex
 		var dials []c20Dial
 		okNext := false
+		mode := c20FailModes[c20EvInstant]
 		var live *wire.Peer
 		var peers []*wire.Peer
+		var stalls []*wire.Conn
 		dialer := func(ctx context.Context, _ string) (net.Conn, error) {
 			mu.Lock()
-			defer mu.Unlock()
 			ok := okNext
 			okNext = false
-			dials = append(dials, c20Dial{At: time.Since(start), OK: ok})
-			if !ok {
-				return nil, errors.New("c20: scripted dial failure")
+			m := mode
+			i := len(dials)
+			d := c20Dial{At: time.Since(start), OK: ok, Mode: m.Name}
+			if ok {
+				d.Mode = "ok"
 			}
-			c, s := wire.Pipe()
-			p := wire.NewServerPeer(s)
-			p.AutoAckSettings = true
-			p.AutoAckPing = true
-			p.WriteSettings()
-			live = p
-			peers = append(peers, p)
-			return c, nil
+			dials = append(dials, d)
+			finish := func(cut bool) { // mu held
+				dials[i].End, dials[i].Done, dials[i].Cut = time.Since(start), true, cut
+			}
+			switch {
+			case ok:
+				c, s := wire.Pipe()
+				p := wire.NewServerPeer(s)
+				p.AutoAckSettings = true
+				p.AutoAckPing = true
+				p.WriteSettings()
+				live = p
+				peers = append(peers, p)
+				finish(false)
+				mu.Unlock()
+				return c, nil
+			case m.Stall:
+				// the connection is accepted; the server end swallows what the
+				// client writes, never answers, and closes after m.Slow (or
+				// notices earlier that the client gave up): that instant is the
+				// END of the attempt.
+				c, s := wire.Pipe()
+				stalls = append(stalls, s)
+				mu.Unlock()
+				go func() {
+					s.SetReadDeadline(time.Now().Add(m.Slow))
+					buf := make([]byte, 4096)
+					cut := false
+					for {
+						if _, err := s.Read(buf); err != nil {
+							cut = !errors.Is(err, os.ErrDeadlineExceeded)
+							break
+						}
+					}
+					mu.Lock()
+					finish(cut)
+					mu.Unlock()
+					s.Close()
+				}()
+				return c, nil
+			case m.Slow > 0:
+				mu.Unlock()
+				tm := time.NewTimer(m.Slow)
+				err := errors.New("c20: scripted slow dial failure")
+				cut := false
+				select {
+				case <-tm.C:
+				case <-ctx.Done():
+					tm.Stop()
+					err, cut = ctx.Err(), true
+				}
+				mu.Lock()
+				finish(cut)
+				mu.Unlock()
+				return nil, err
+			}
+			finish(false)
+			mu.Unlock()
+			return nil, errors.New("c20: scripted dial failure")
 		}
 		cc, err := grpc.NewClient("passthrough:///c20.single.address:1",
 			grpc.WithContextDialer(dialer),
@@ -126,73 +236,116 @@ func c20RunHistory(t *testing.T, cc20 c20ChanCfg, hist []int) (res c20HistResult
 			cc.Close()
 			mu.Lock()
 			ps := peers
+			ss := stalls
 			mu.Unlock()
 			for _, p := range ps {
 				p.Close()
+			}
+			for _, s := range ss {
+				s.Close()
 			}
 			synctest.Wait()
 		}()
 
 		// reference model (from the statement)
-		n := 0                 // consecutive failures since the last success / reset
-		pending := false       // the last attempt failed and no attempt followed yet
-		var lastFailAt time.Duration
+		n := 0               // consecutive failures since the last success / reset
+		inflight := false    // an attempt has started and not ended yet
+		idxAtStart := 0      // n when the in-flight attempt started
+		midReset := false    // ResetConnectBackoff was called while that attempt was in flight
+		pending := false     // the last attempt failed and no attempt followed yet
+		var lastFailEnd time.Duration
+		var lastFail c20Dial
 		lastFailIdx := 0
-		resetSince := false    // ResetConnectBackoff was called after the last attempt
-		afterSuccess := false  // the pending failure is the first one after a success
-		prevOK := false        // the previous attempt succeeded
-		seen := 0
+		lastFailMidReset := false
+		resetSince := false   // ResetConnectBackoff was called after the last failure
+		afterSuccess := false // the pending failure is the first one after a success
+		prevOK := false       // the previous attempt succeeded
+		seen := 0             // attempts whose END has been processed
 		fail := func(step int, class, f string, a ...any) {
 			if len(res.Fails) == 0 {
 				res.FailAt = step
 			}
 			res.Fails = append(res.Fails, c20Fail{class, fmt.Sprintf(f, a...)})
 		}
+		// bounds for the wait after the pending failure
+		bounds := func() (lo, hi time.Duration) {
+			lo, hi = c20MinMax(cc20.Cfg, lastFailIdx)
+			if lastFailMidReset {
+				// the backoff was reset while the attempt was running: the
+				// failure may be counted as retry 0 or with the index the
+				// attempt started with; accept both readings.
+				l0, h0 := c20MinMax(cc20.Cfg, 0)
+				lo, hi = min(lo, l0), max(hi, h0)
+			}
+			return
+		}
 		observe := func(step int) {
 			mu.Lock()
 			ds := append([]c20Dial(nil), dials...)
 			mu.Unlock()
-			for ; seen < len(ds); seen++ {
+			for seen < len(ds) {
 				d := ds[seen]
-				if pending {
-					lo, hi := c20MinMax(cc20.Cfg, lastFailIdx)
-					gap := d.At - lastFailAt
-					if resetSince {
-						res.Resets++
-					} else {
-						res.Checked++
-						if lastFailIdx > res.MaxIdx {
-							res.MaxIdx = lastFailIdx
-						}
-						res.IdxCount[min(lastFailIdx, 11)]++
-						if afterSuccess {
-							res.PostOK++
-						}
-						if gap < lo {
-							fail(step, "early-redial", "dial #%d at %v follows the failed dial at %v after only %v; it was consecutive failure index %d, so the wait must be >= %v (no ResetConnectBackoff in between)", seen+1, d.At, lastFailAt, gap, lastFailIdx, lo)
-						} else if gap > hi {
-							fail(step, "late-redial", "dial #%d at %v follows the failed dial at %v after %v; consecutive failure index %d allows at most %v (was the index reset after the last success/reset?)", seen+1, d.At, lastFailAt, gap, lastFailIdx, hi)
+				if !inflight {
+					// START of attempt #seen+1
+					if pending {
+						lo, hi := bounds()
+						gap := d.At - lastFailEnd
+						if resetSince {
+							res.Resets++
+						} else {
+							res.Checked++
+							if lastFailIdx > res.MaxIdx {
+								res.MaxIdx = lastFailIdx
+							}
+							res.IdxCount[min(lastFailIdx, 11)]++
+							if afterSuccess {
+								res.PostOK++
+							}
+							if lastFail.End > lastFail.At {
+								res.SlowGaps++
+								if lastFail.Cut {
+									res.CutGaps++
+								}
+								if lastFail.Mode == "stallclose1s" {
+									res.StallGaps++
+								}
+							}
+							if lastFailMidReset {
+								res.MidReset++
+							}
+							if gap < lo {
+								fail(step, "early-redial", "dial #%d starts at %v, only %v after the previous attempt %v failed at %v; that was consecutive failure index %d, so the wait must be >= %v (no ResetConnectBackoff in between)", seen+1, d.At, gap, lastFail, lastFailEnd, lastFailIdx, lo)
+							} else if gap > hi {
+								fail(step, "late-redial", "dial #%d starts at %v, %v after the previous attempt %v failed at %v; consecutive failure index %d allows at most %v (was the index reset after the last success/reset?)", seen+1, d.At, gap, lastFail, lastFailEnd, lastFailIdx, hi)
+							}
 						}
 					}
+					pending, resetSince = false, false
+					inflight, idxAtStart, midReset = true, n, false
 				}
-				resetSince = false
-				afterSuccess = prevOK && !d.OK
-				prevOK = d.OK
+				if !d.Done {
+					break
+				}
+				// END of attempt #seen+1
+				inflight = false
 				if d.OK {
-					n, pending, afterSuccess = 0, false, false
+					n, afterSuccess = 0, false
 					res.Succ++
 				} else {
-					lastFailAt, lastFailIdx, pending = d.At, n, true
+					lastFailEnd, lastFail, lastFailIdx, lastFailMidReset, pending = d.End, d, idxAtStart, midReset, true
+					afterSuccess = prevOK
 					n++
 				}
+				prevOK = d.OK
+				seen++
 			}
 			// the channel keeps retrying a failed single address by itself
 			// (pick_first re-connects out of TRANSIENT_FAILURE): once the
 			// maximal wait for the index has elapsed a new attempt must exist.
 			if pending {
-				_, hi := c20MinMax(cc20.Cfg, lastFailIdx)
-				if now := time.Since(start); now-lastFailAt > hi {
-					fail(step, "no-redial", "at %v: no dial since the failed dial at %v (index %d, maximal wait %v)", now, lastFailAt, lastFailIdx, hi)
+				_, hi := bounds()
+				if now := time.Since(start); now-lastFailEnd > hi {
+					fail(step, "no-redial", "at %v: no dial since the attempt %v failed at %v (index %d, maximal wait %v)", now, lastFail, lastFailEnd, lastFailIdx, hi)
 					pending = false
 				}
 			}
@@ -214,6 +367,9 @@ func c20RunHistory(t *testing.T, cc20 c20ChanCfg, hist []int) (res c20HistResult
 		}
 		settle(0)
 		for i, ev := range hist {
+			if inflight {
+				res.InFlight++
+			}
 			switch ev {
 			case c20EvConnect:
 				cc.Connect()
@@ -224,12 +380,22 @@ func c20RunHistory(t *testing.T, cc20 c20ChanCfg, hist []int) (res c20HistResult
 			case c20EvAdv10s:
 				time.Sleep(10 * time.Second)
 			case c20EvReset:
-				resetSince = true
+				// the model's state is that of the last quiescent point, which
+				// is the state in which the call is made
 				n = 0
+				if inflight {
+					midReset = true
+				} else if pending {
+					resetSince = true
+				}
 				cc.ResetConnectBackoff()
 			case c20EvOkNext:
 				mu.Lock()
 				okNext = true
+				mu.Unlock()
+			default:
+				mu.Lock()
+				mode = c20FailModes[ev]
 				mu.Unlock()
 			}
 			settle(i + 1)
@@ -257,13 +423,28 @@ type c20Replay struct {
 	Events []string `json:"events"`
 }
 
+// c20Family: one block of the enumeration - all histories preamble ++ tail with
+// tail in Alphabet^Depth, except (SkipBelow > 0) those whose tail uses only the
+// first SkipBelow events (they are prefixes of histories of another family).
+type c20Family struct {
+	Alphabet  int
+	Depth     int
+	SkipBelow int
+}
+
 func TestVerif_C20_ChannelPacing(t *testing.T) {
 	const P = "C20"
 	r := vk.Start(t, "c20_channel_pacing", "exploration", P)
 	defer r.Finish()
 	depth := r.Pick(5, 7)
+	xdepth := r.Pick(5, 6)
+	xalpha := len(c20Events)
+	families := []c20Family{
+		{Alphabet: c20BaseEvents, Depth: depth},
+		{Alphabet: xalpha, Depth: xdepth, SkipBelow: c20BaseEvents},
+	}
 	preambles := [][]int{nil, {c20EvConnect, c20EvAdv10s}}
-	r.Rule(P, fmt.Sprintf("every event history of length exactly %d (oracle checked after every prefix) over {connect, advance 500ms, advance 1s, advance 10s, ResetConnectBackoff, next-dial-succeeds-then-server-closes}, from 2 start points (fresh channel; channel after connect+10s of failures = retry index 4), for 2 backoff configs (base 1s, x2, max 8s, jitter 0 and 0.2), each in a fresh synctest bubble with a real grpc.ClientConn and a scripted dialer; non-trivial = distinct histories in which at least one redial gap was checked against the bound", depth))
+	r.Rule(P, fmt.Sprintf("every event history of length exactly %d over the base alphabet {connect, advance 500ms, advance 1s, advance 10s, ResetConnectBackoff, next-dial-succeeds-then-server-closes} PLUS every history of length exactly %d over the extended alphabet %v that uses at least one of the added events (they choose how the following failing dials fail: slowfail(d) = the dialer blocks d of virtual time or until the connect deadline, then errors; stallclose1s = accepted, no server preface, closed by the server after 1s; instantfail = the default); oracle checked after every prefix: the gap from the END (failure) of attempt k to the START of attempt k+1 must lie within the statement's bounds for the consecutive-failure index; from 2 start points (fresh channel; channel after connect+10s of instant failures = retry index 4), for 2 backoff configs (base 1s, x2, max 8s, jitter 0 and 0.2; MinConnectTimeout 1s), each in a fresh synctest bubble with a real grpc.ClientConn and a scripted dialer; non-trivial = distinct histories in which at least one redial gap was checked against the bound", depth, xdepth, c20Events[:xalpha]))
 	if r.ReplayFile() != "" {
 		var rp c20Replay
 		if err := r.LoadReplay(&rp); err != nil {
@@ -279,7 +460,12 @@ func TestVerif_C20_ChannelPacing(t *testing.T) {
 		}
 		var h []int
 		for _, e := range rp.Events {
-			h = append(h, idx[e])
+			k, ok := idx[e]
+			if !ok {
+				r.EngineError("replay: unknown event %q", e)
+				return
+			}
+			h = append(h, k)
 		}
 		for _, c := range c20ChanCfgs {
 			if c.Name != rp.Config {
@@ -295,102 +481,104 @@ func TestVerif_C20_ChannelPacing(t *testing.T) {
 		}
 		return
 	}
-	total := 1
-	for i := 0; i < depth; i++ {
-		total *= len(c20Events)
-	}
-	type job struct {
-		cfg  int
-		pre  int
-		code int
-	}
-	jobs := make(chan job, 256)
-	var wg sync.WaitGroup
-	var smu sync.Mutex
-	var evals, nontriv, gaps, resets, postok int64
+	var evals, nontriv, gaps, resets, postok, slowgaps, cutgaps, stallgaps, midreset, inflight, slowHist int64
 	var idxCount [12]int64
-	sampled := 0
+	sampled, sampledSlow := 0, 0
 	// Histories run strictly one after the other in a process (parallelism comes
 	// from worker processes with GOMAXPROCS=1, see leg.json): go1.25.0 allocates
 	// the runtime record that ties a sync.WaitGroup to its bubble without taking
 	// the heap's special lock, so WaitGroups used on several Ms at once (here:
 	// ClientConn.Close in concurrent bubbles) can spuriously die with "WaitGroup.Add
 	// called from multiple synctest bubbles".
-	workers := 1
-	_ = runtime.GOMAXPROCS
-	for w := 0; w < workers; w++ {
-		wg.Add(1)
-		go func() {
-			defer wg.Done()
-			for j := range jobs {
-				h := append([]int(nil), preambles[j.pre]...)
-				x := j.code
-				tail := make([]int, depth)
-				for k := depth - 1; k >= 0; k-- {
-					tail[k] = x % len(c20Events)
-					x /= len(c20Events)
-				}
-				h = append(h, tail...)
-				cfg := c20ChanCfgs[j.cfg]
-				res := c20RunHistory(t, cfg, h)
-				for _, f := range res.Fails {
-					if f.Class == "engine" {
-						r.EngineError("%s", f.Desc)
-						continue
-					}
-					fh := h
-					if res.FailAt <= len(h) {
-						fh = h[:res.FailAt]
-					}
-					evs := make([]string, len(fh))
-					for i, e := range fh {
-						evs[i] = c20Events[e]
-					}
-					r.Violation(P, "chan/"+f.Class+"/"+cfg.Name, f.Desc+"\n  config: "+fmt.Sprintf("%+v", cfg.Cfg)+"\n  history: "+c20HistString(fh)+"\n  dials: "+fmt.Sprint(res.Dials), c20Replay{Config: cfg.Name, Events: evs})
-				}
-				smu.Lock()
-				evals++
-				if res.Checked > 0 {
-					nontriv++
-				}
-				gaps += int64(res.Checked)
-				resets += int64(res.Resets)
-				postok += int64(res.PostOK)
-				for i, n := range res.IdxCount {
-					idxCount[i] += int64(n)
-				}
-				if cfg.Name == "J0" {
-					// fully deterministic config: detailed outcome classes
-					r.Outcome(P, fmt.Sprintf("chan:dials=%d,ok=%d,gaps=%d,resetExcused=%d,maxIdx=%d", len(res.Dials), res.Succ, res.Checked, res.Resets, res.MaxIdx))
-					if res.PostOK > 0 && res.Resets > 0 && sampled < 2 {
-						sampled++
-						r.Sample(P, map[string]any{"config": cfg.Name, "history": c20HistString(h), "dials": fmt.Sprint(res.Dials)})
-					}
-				} else {
-					r.Outcome(P, "chan:jitter-config-run")
-				}
-				smu.Unlock()
+	run := func(cfg c20ChanCfg, h []int) {
+		res := c20RunHistory(t, cfg, h)
+		for _, f := range res.Fails {
+			if f.Class == "engine" {
+				r.EngineError("%s", f.Desc)
+				continue
 			}
-		}()
+			fh := h
+			if res.FailAt <= len(h) {
+				fh = h[:res.FailAt]
+			}
+			evs := make([]string, len(fh))
+			for i, e := range fh {
+				evs[i] = c20Events[e]
+			}
+			r.Violation(P, "chan/"+f.Class+"/"+cfg.Name, f.Desc+"\n  config: "+fmt.Sprintf("%+v", cfg.Cfg)+"\n  history: "+c20HistString(fh)+"\n  dials: "+fmt.Sprint(res.Dials), c20Replay{Config: cfg.Name, Events: evs})
+		}
+		evals++
+		if res.Checked > 0 {
+			nontriv++
+		}
+		if res.SlowGaps > 0 {
+			slowHist++
+		}
+		gaps += int64(res.Checked)
+		resets += int64(res.Resets)
+		postok += int64(res.PostOK)
+		slowgaps += int64(res.SlowGaps)
+		cutgaps += int64(res.CutGaps)
+		stallgaps += int64(res.StallGaps)
+		midreset += int64(res.MidReset)
+		inflight += int64(res.InFlight)
+		for i, n := range res.IdxCount {
+			idxCount[i] += int64(n)
+		}
+		if cfg.Name == "J0" {
+			// fully deterministic config: detailed outcome classes
+			r.Outcome(P, fmt.Sprintf("chan:dials=%d,ok=%d,gaps=%d(afterSlowFailure=%d),resetExcused=%d,maxIdx=%d", len(res.Dials), res.Succ, res.Checked, res.SlowGaps, res.Resets, res.MaxIdx))
+			if res.PostOK > 0 && res.Resets > 0 && sampled < 2 {
+				sampled++
+				r.Sample(P, map[string]any{"config": cfg.Name, "history": c20HistString(h), "dials": fmt.Sprint(res.Dials)})
+			}
+			if res.SlowGaps > 1 && res.CutGaps > 0 && sampledSlow < 2 {
+				sampledSlow++
+				r.Sample(P, map[string]any{"config": cfg.Name, "history": c20HistString(h), "dials": fmt.Sprint(res.Dials)})
+			}
+		} else {
+			r.Outcome(P, "chan:jitter-config-run")
+		}
 	}
 	i := 0
-	for c := range c20ChanCfgs {
-		for p := range preambles {
-			for code := 0; code < total; code++ {
-				if r.Mine(i) {
-					jobs <- job{c, p, code}
+	for _, fam := range families {
+		total := 1
+		for k := 0; k < fam.Depth; k++ {
+			total *= fam.Alphabet
+		}
+		tail := make([]int, fam.Depth)
+		for c := range c20ChanCfgs {
+			for p := range preambles {
+				for code := 0; code < total; code++ {
+					x, ext := code, false
+					for k := fam.Depth - 1; k >= 0; k-- {
+						tail[k] = x % fam.Alphabet
+						x /= fam.Alphabet
+						ext = ext || tail[k] >= fam.SkipBelow
+					}
+					if !ext {
+						continue
+					}
+					if r.Mine(i) {
+						h := append(append([]int(nil), preambles[p]...), tail...)
+						run(c20ChanCfgs[c], h)
+					}
+					i++
 				}
-				i++
 			}
 		}
 	}
-	close(jobs)
-	wg.Wait()
 	r.Eval(P, evals)
 	r.NontrivialN(P, nontriv)
 	r.AddInt(P, "chan_redial_gaps_checked", gaps)
 	r.AddInt(P, "chan_short_gaps_excused_by_reset", resets)
 	r.AddInt(P, "chan_gaps_checked_for_first_failure_after_success", postok)
+	r.AddInt(P, "chan_gaps_checked_after_a_failure_that_took_virtual_time", slowgaps)
+	r.AddInt(P, "chan_gaps_checked_after_an_attempt_cut_by_the_connect_deadline", cutgaps)
+	r.AddInt(P, "chan_gaps_checked_after_accept_without_preface_then_close", stallgaps)
+	r.AddInt(P, "chan_gaps_checked_after_reset_during_the_attempt", midreset)
+	r.AddInt(P, "chan_histories_with_a_gap_after_a_slow_failure", slowHist)
+	r.AddInt(P, "chan_events_issued_while_an_attempt_was_in_flight", inflight)
 	for i, n := range idxCount {
 		if n > 0 {
 			r.AddInt(P, fmt.Sprintf("chan_gaps_checked_at_retry_index_%02d", i), n)
@@ -398,6 +586,7 @@ func TestVerif_C20_ChannelPacing(t *testing.T) {
 	}
 	lo3, hi3 := c20MinMax(c20ChanCfgs[1].Cfg, 3)
 	r.Sample(P, map[string]any{"config": "J0.2", "retry_index": 3, "allowed_wait": fmt.Sprintf("[%v, %v]", lo3, hi3), "big": new(big.Int).SetInt64(int64(hi3)).String()})
-	r.Assume(P, "channel leg: one address, default pick_first, passthrough resolver, dials fail or succeed instantly; pick_first's automatic re-connect out of TRANSIENT_FAILURE is assumed (it makes the UPPER bound observable, which is how 'the index resets after a successful connection' is checked)")
+	r.Assume(P, "channel leg: one address, default pick_first, passthrough resolver; dials succeed instantly; failing dials fail instantly, after 500ms/1s/10s of virtual time (or at the channel's connect deadline = max(MinConnectTimeout 1s, backoff), whichever is first), or by accept-without-preface-then-close after 1s; pick_first's automatic re-connect out of TRANSIENT_FAILURE is assumed (it makes the UPPER bound observable, which is how 'the index resets after a successful connection' is checked)")
+	r.Assume(P, "channel leg: a ResetConnectBackoff issued while an attempt is in flight makes the oracle accept both readings for the wait after that attempt's failure (retry index 0, or the index the attempt started with); a reset issued while waiting excuses the lower bound")
 	r.Assume(P, "channel leg: with jitter 0.2 the draw is not scripted; the oracle interval is draw-independent, the detailed outcome statistics are taken from the jitter-0 config only")
 }
